@@ -31,6 +31,9 @@ class LoopFrame(StackFrame):
         # remain its parameters inside the loop.
         self.params = parent.params
         self._loop_var = {}
+        # Size of the evaluation stack when the loop was entered. A loop over
+        # lights keeps the names it has yet to visit on that stack.
+        self.eval_stack_size = 0
 
     def get_loop_var(self, index):
         return self._loop_var.get(index, None)
@@ -113,12 +116,21 @@ class CallStack:
     def pop_frame(self) -> None:
         self._top = self._top.parent
 
-    def enter_loop(self) -> None:
+    def enter_loop(self, eval_stack_size=0) -> None:
         self._top = LoopFrame(self._top)
+        self._top.eval_stack_size = eval_stack_size
 
-    def exit_loop(self) -> None:
+    def exit_loop(self) -> int:
+        # Returns the size the evaluation stack had when the loop was entered.
+        eval_stack_size = self._top.eval_stack_size
         self._top = self._top.parent
+        return eval_stack_size
 
-    def unwind_loops(self) -> None:
+    def unwind_loops(self):
+        # Returns the size the evaluation stack had when the outermost of the
+        # abandoned loops was entered, or None if there was no loop.
+        eval_stack_size = None
         while isinstance(self._top, LoopFrame):
+            eval_stack_size = self._top.eval_stack_size
             self._top = self._top.parent
+        return eval_stack_size
